@@ -242,12 +242,12 @@ PROPS = {
     },
     "C10": {
         "nt_rule": "async3",
-        "level": "other", "module": "Resolvo.Props.C10", "theorems": ["Resolvo.C10.at_most_once_candidates", "Resolvo.MDet.asyncStep_cinv", "Resolvo.C10.callbacks_issue_nothing", "Resolvo.C10.request_guard", "Resolvo.MDet.listener_issues_nothing", "Resolvo.MDet.pollCands_spec", "Resolvo.C10.verdict_reference",
-                     "Resolvo.C10.any_order_valid", "Resolvo.C10.any_order_unsat_sound", "Resolvo.C10.verdict_independent_of_order", "Resolvo.C10.any_order_soft_never_error", "Resolvo.C10.any_order_preferred"],
+        "level": "proof", "module": "Resolvo.Props.C10", "theorems": ["Resolvo.C10.at_most_once_candidates", "Resolvo.MDet.asyncStep_cinv", "Resolvo.C10.callbacks_issue_nothing", "Resolvo.C10.request_guard", "Resolvo.MDet.listener_issues_nothing", "Resolvo.MDet.pollCands_spec", "Resolvo.C10.verdict_reference",
+                     "Resolvo.C10.at_most_once_dependencies", "Resolvo.C10.at_most_once_dependencies_fresh", "Resolvo.MDet.asyncStep_dinv", "Resolvo.MDet.qr_runCallback", "Resolvo.C10.any_order_valid", "Resolvo.C10.any_order_unsat_sound", "Resolvo.C10.verdict_independent_of_order", "Resolvo.C10.any_order_soft_never_error", "Resolvo.C10.any_order_preferred"],
         "families": [("async", {"quick": 8000, "thorough": 150000}), ("reuse-async", {"quick": 4000, "thorough": 80000}), ("async-cf", {"quick": 4000, "thorough": 80000})],
         "explanation": "MODEL: MDet/Async.lean models Encoder::encode with a suspending provider exactly - FuturesUnordered's ready queue, the in-flight marker and Event listeners of get_or_cache_candidates, try_join_all over the version sets of a requirement, and the executor's quiescent points - for a single-threaded executor that completes one outstanding request at a time; the schedule (completion order) is an input. "
                        "TIE (every async case, incl. asynchronous filter/sort - their gates are modelled as two further suspension stages of a requirement's children): result, solution order, provider call log with the start (c/d) and answer-obtained (C/D) markers and cancellation polls, the executor's event log (`pending <set>` at every quiescent point, `complete <label>`) and the complete solver history are compared for exact equality with the real solver run under the same completion order (FIFO, LIFO, seeded random schedules; also after Cancelled/Unsolvable solves on a reused solver). "
-                       "PROVED for the checked model under every completion order (any_order_valid, any_order_unsat_sound, verdict_independent_of_order, any_order_soft_never_error, any_order_preferred: the schedule, the mode and the rest of the solver state are universally quantified): a returned solution is valid per C01, Unsolvable is sound, no two completion orders (nor an async and the sync run) can disagree on the verdict, and compatible first choices are returned exactly. CHECKED PER RUN on every case incl. asynchronous filter/sort: validB on every answer, verdict = verified decideSolvable (= sync verdict), no provider request issued twice within a solve and none repeated once answered, no deadlock (solver pending with nothing outstanding), no panic. PROVED (run level, all universes / problems / solver states / completion orders): along every run of the model's encoder loop no package's candidates are requested twice and every requested package is answered or still in flight (at_most_once_candidates: asyncStep_cinv + the frame lemmas of MDet/Frame.lean showing that the clause-generating callbacks never touch the provider cache); step level: a get_candidates request is issued only when the answer is neither cached nor in flight (request_guard), an await that finds a request in flight issues nothing (listener_issues_nothing); exactness of the verdict reference; the checked-model theorems of C01/C02/C05 apply to the async model's answers as to the sync model's. NOT PROVED: at-most-once for get_dependencies (guaranteed by the encoder's processed set and, for queries from inside sort_candidates, by the in-flight table added in fix bd5e696) and deadlock-freedom are evaluated per run; waker delivery and cooperative yielding of real multi-threaded executors are outside the model.",
+                       "PROVED for the checked model under every completion order (any_order_valid, any_order_unsat_sound, verdict_independent_of_order, any_order_soft_never_error, any_order_preferred: the schedule, the mode and the rest of the solver state are universally quantified): a returned solution is valid per C01, Unsolvable is sound, no two completion orders (nor an async and the sync run) can disagree on the verdict, and compatible first choices are returned exactly. CHECKED PER RUN on every case incl. asynchronous filter/sort: validB on every answer, verdict = verified decideSolvable (= sync verdict), no provider request issued twice within a solve and none repeated once answered, no deadlock (solver pending with nothing outstanding), no panic. PROVED (run level, all universes / problems / solver states / completion orders): along every run of the model's encoder loop no package's candidates are requested twice and every requested package is answered or still in flight (at_most_once_candidates: asyncStep_cinv + the frame lemmas of MDet/Frame.lean showing that the clause-generating callbacks never touch the provider cache); step level: a get_candidates request is issued only when the answer is neither cached nor in flight (request_guard), an await that finds a request in flight issues nothing (listener_issues_nothing); exactness of the verdict reference; the checked-model theorems of C01/C02/C05 apply to the async model's answers as to the sync model's. PROVED as well (run level, every universe / problem / solver state / completion order): along every run of the model's encoder loop the dependencies of no solvable are requested twice (at_most_once_dependencies: asyncStep_dinv - the deps futures that exist are pairwise distinct and belong to processed solvables, a future that has not started has not been requested; the callbacks, the polls of other futures and the executor satisfy the relational specification QR: they only extend the push queue by futures of newly processed solvables). NOT PROVED: termination / deadlock-freedom (evaluated per run: a pending solver with nothing outstanding is a failure), at-most-once for queries issued from inside sort_candidates (in-flight table of fix bd5e696, evaluated per run); waker delivery and cooperative yielding of real multi-threaded executors are outside the model.",
         "assumptions": ["single-threaded executor that wakes a task only when the future it is parked on completes"],
     },
     "C11": {
